@@ -176,11 +176,9 @@ class World(object):
             first = next((i for i, l in enumerate(lines) if not l.startswith('#')), len(lines))
             for _ in range(n):
                 kind = rng.choice(['glued', 'int', 'short1', 'short4', 'float', 'word'])
-                if self.params['profile'] and kind in ('short4', 'float', 'glued'):
-                    # in a profile line the last column is free text: a glued remainder can still parse
-                    # (as a line of the run whose number an earlier column happens to be) - that is a
-                    # question of C09 for profile files, not of the rewrite
+                if self.params['profile'] and kind in ('short4', 'float'):
                     kind = 'short1'
+                # (a glued remainder in a profile line is rejected by the JSON check of the last column)
                 src = rng.choice(data) if data else '1\t1\t2.000000\tms\ttotal'
                 if kind == 'glued':
                     bad = src[:rng.randint(1, max(1, len(src) - 1))] + '#!rebench -D ' + self.scn.conf
@@ -251,7 +249,8 @@ class World(object):
             exe = {'exe': 'E', 'exe2': 'E2', 'exe3': 'E3'}.get(toks[0].rsplit('/', 1)[-1], '?')
             return self.key_of(exe, toks[-1])
         bp, rp = dd.payload_tables(dd.parse_file(self.old[f]), key_of_bench, key_of_run)
-        op = {'op': 'c14.rewrite', 'text': self.old[f], 'hdr': dd.HDR, 'lvariant': LV, 'rvariant': RV,
+        pj = sorted(set(d['json'] for d in dd.parse_file(self.old[f]) if d['kind'] == 'prof')) if self.params['profile'] else None
+        op = {'op': 'c14.rewrite', 'text': self.old[f], 'hdr': dd.HDR, 'lvariant': LV, 'rvariant': RV, 'profile_json': pj,
               'bench_payloads': bp, 'run_payloads': rp, 'profile': self.params['profile'], 'same_fs': same_fs,
               'cap': 8192, 'sel': sel, 'runs': list(range(len(names))), 'invocations': self.params['invocations']}
         if RV.startswith('custom:'):
